@@ -9,7 +9,7 @@ git show $c -- src > /tmp/fix_$d.diff
 git apply -R /tmp/fix_$d.diff || { echo "cannot reverse-apply"; exit 2; }
 git diff > /verif/seeded/revert_$d/patch.diff
 cd /verif
-out=$(./check $chk quick 2>&1); rc=$?
+out=$(VERIF_SCRATCH_OUT=/tmp/verif_seed_out ./check $chk quick 2>&1); rc=$?
 cd /repo && git checkout -- . 
 echo "$out" | grep -E "^\[|VIOLATION|class=" | head -6
 echo "revert_$d $chk exit=$rc"
